@@ -44,7 +44,11 @@ func mkDict(prefix string) r.Element {
 	var kv []value.KVPair
 	keys := []string{"甲", "乙"}
 	for k := 0; k < n; k++ {
-		kv = append(kv, value.KVPair{Key: keys[k], Value: value.NewNumber(zv.Float64(prefix + "v"))})
+		key := keys[k]
+		if k == 1 && zv.Choose(2) == 1 {
+			key = keys[0] // the same key twice
+		}
+		kv = append(kv, value.KVPair{Key: key, Value: value.NewNumber(zv.Float64(prefix + "v"))})
 	}
 	return value.NewHashMap(kv)
 }
@@ -127,6 +131,18 @@ func H_Members() {
 		}()
 		zv.Assert(panicked == nil, "setter "+rk.name+"."+name+": no Go panic")
 	}
+	// the receiver is still a usable value afterwards: displaying it and
+	// reading each of its properties does not panic either
+	func() {
+		defer func() { panicked = recover() }()
+		if st, ok := recv.(interface{ String() string }); ok {
+			_ = st.String()
+		}
+		for _, g := range zv.StringTable("(*" + vpkg + rk.typ + ").GetProperty") {
+			recv.GetProperty(g)
+		}
+	}()
+	zv.Assert(panicked == nil, "after a member of "+rk.name+" ran, the receiver can still be displayed and its properties read")
 	zv.Reach("done")
 }
 
@@ -155,6 +171,10 @@ var indexPrograms = []string{
 	"输入A、I\n如何F？\n    输入T、L\n    输出 “{}{” % 【T】\n输出（F：A、I）",
 	"输入A、I\n定义T：\n    其甲设为1\n    如何改？\n        输入V\n        输出 “{#.}}” % 【V】\n令O = （新建T）\n输出 以O（改：A）",
 	"输入A、I\n令B = 【A，I】\n输出 B#I",
+	"输入A、I\n令B = 【甲 = A，甲 = I，乙 = 1】\n以B（移除：“甲”）\n输出 “{}” % 【B】",
+	"输入A、I\n令B = 【甲 = A，甲 = I】\n以B（移除：“甲”）\n输出 B之所有值",
+	"输入A、I\n令B = 【甲 = A，乙 = I，甲 = 1】\n以B（移除：I）\n遍历B：\n    （显示：此）\n输出 B之数目",
+	"输入A、I\n令B = 【A，I】\n以B（移除：I）\n以B（前增：A）\n输出 “{}” % 【B】",
 }
 
 var libPrograms = []string{
